@@ -83,10 +83,12 @@ ExpSmall(r, w) ==
   IN FoldLeft(LAMBDA y, i : FxMul(y, y, w), base, IRange(1, s))
 \* enclosure of exp(x) for a dyadic x: [lo, hi] * 2^sh
 ExpEncl(x, w) ==
-  LET xf == FxOfDy(x, w)
-      ln2 == Ln2Fx(w)
+  LET g == (IF DyIsZero(x) THEN 0 ELSE IMax(DyTop(x), 0)) + 2         \* reduce at the finer scale w + g: the error k * err(ln 2) stays small
+      W == w + g
+      xf == FxOfDy(x, W)
+      ln2 == Ln2Fx(W)
       k == ZToInt(ZDivFloor(ZAdd(ZShl(xf.v, 1), ln2.v), ZShl(ln2.v, 1)))        \* nearest integer to x / ln 2
-      r == FxSub(xf, FxMulInt(ln2, k))
+      r == FxShr(FxSub(xf, FxMulInt(ln2, k)), g)
       y == ExpSmall(r, w)
   IN [lo |-> ZSub(y.v, ZFromInt(y.e)), hi |-> ZAdd(y.v, ZFromInt(y.e)), sh |-> k - w]
 
@@ -126,18 +128,23 @@ SinCosSmall(r, w) ==
                 <<r, FxInt(1, w), r, FxInt(1, w)>>, IRange(1, n))
       tl == ZToInt(ZAbs(st[3].v)) + ZToInt(ZAbs(st[4].v)) + st[3].e + st[4].e + 2
   IN <<Fx(st[1].v, st[1].e + tl), Fx(st[2].v, st[2].e + tl)>>
-\* enclosures of sin x and cos x for a dyadic x (w must exceed the bit length of |x| by the wanted accuracy)
-SinCosEncl(x, w) ==
-  LET xf == FxOfDy(x, w)
-      hp == FxShr(PiFx(w + 2), 3)                              \* pi/2 at scale w (from pi at scale w+2)
+\* sin x and cos x for a dyadic x as fixed-point values.  The argument reduction r = x - k pi/2 is done at the
+\* finer scale w + g, g = bit length of |x| + 2, so that the error k * err(pi/2) stays a few units at scale w
+SinCosFx(x, w) ==
+  LET g == (IF DyIsZero(x) THEN 0 ELSE IMax(DyTop(x), 0)) + 2
+      W == w + g
+      xf == FxOfDy(x, W)
+      hp == FxShr(PiFx(W + 2), 3)                              \* pi/2 at scale W (from pi at scale W+2)
       k == ZToInt(ZDivFloor(ZAdd(ZShl(xf.v, 1), hp.v), ZShl(hp.v, 1)))
-      r == FxSub(xf, FxMulInt(hp, k))
+      r == FxShr(FxSub(xf, FxMulInt(hp, k)), g)                 \* back at scale w
       sc == SinCosSmall(r, w)
       q == k % 4
-      s == CASE q = 0 -> sc[1] [] q = 1 -> sc[2] [] q = 2 -> FxNeg(sc[1]) [] OTHER -> FxNeg(sc[2])
-      c == CASE q = 0 -> sc[2] [] q = 1 -> FxNeg(sc[1]) [] q = 2 -> FxNeg(sc[2]) [] OTHER -> sc[1]
-      E(f) == [lo |-> ZSub(f.v, ZFromInt(f.e)), hi |-> ZAdd(f.v, ZFromInt(f.e)), sh |-> -w]
-  IN [s |-> E(s), c |-> E(c)]
+  IN <<CASE q = 0 -> sc[1] [] q = 1 -> sc[2] [] q = 2 -> FxNeg(sc[1]) [] OTHER -> FxNeg(sc[2]),
+       CASE q = 0 -> sc[2] [] q = 1 -> FxNeg(sc[1]) [] q = 2 -> FxNeg(sc[2]) [] OTHER -> sc[1]>>
+SinCosEncl(x, w) ==
+  LET f == SinCosFx(x, w)
+      E(t) == [lo |-> ZSub(t.v, ZFromInt(t.e)), hi |-> ZAdd(t.v, ZFromInt(t.e)), sh |-> -w]
+  IN [s |-> E(f[1]), c |-> E(f[2])]
 \* atan series for |y| <= 0.42
 AtanSmall(y, w) ==
   LET y2 == FxMul(y, y, w)
@@ -166,6 +173,56 @@ ConstEncl(name, w) ==
              [] name = "degree" -> FxDivSmall(PiFx(w), 180)
   IN [lo |-> ZSub(f.v, ZFromInt(f.e)), hi |-> ZAdd(f.v, ZFromInt(f.e)), sh |-> -w]
 
+(*************************** enclosure algebra ******************************)
+\* exact operations on result enclosures [lo, hi] * 2^sh (no rounding: the integers simply grow)
+EOf(f, w) == [lo |-> ZSub(f.v, ZFromInt(f.e)), hi |-> ZAdd(f.v, ZFromInt(f.e)), sh |-> -w]
+ZMin2(a, b) == IF ZCmp(a, b) <= 0 THEN a ELSE b
+ZMax2(a, b) == IF ZCmp(a, b) >= 0 THEN a ELSE b
+EAlign(a, sh) == [lo |-> ZShl(a.lo, a.sh - sh), hi |-> ZShl(a.hi, a.sh - sh), sh |-> sh]        \* sh <= a.sh
+EAdd(a, b) == LET sh == IMin(a.sh, b.sh)  x == EAlign(a, sh)  y == EAlign(b, sh)
+              IN [lo |-> ZAdd(x.lo, y.lo), hi |-> ZAdd(x.hi, y.hi), sh |-> sh]
+ENeg(a) == [lo |-> ZNeg(a.hi), hi |-> ZNeg(a.lo), sh |-> a.sh]
+ESub(a, b) == EAdd(a, ENeg(b))
+EMul(a, b) == LET p1 == ZMul(a.lo, b.lo)  p2 == ZMul(a.lo, b.hi)  p3 == ZMul(a.hi, b.lo)  p4 == ZMul(a.hi, b.hi)
+              IN [lo |-> ZMin2(ZMin2(p1, p2), ZMin2(p3, p4)), hi |-> ZMax2(ZMax2(p1, p2), ZMax2(p3, p4)), sh |-> a.sh + b.sh]
+EHalf(a) == [a EXCEPT !.sh = a.sh - 1]
+
+(*************************** tan, atan2, complex elementary functions ******)
+\* tan x = sin x / cos x; "none" when the cosine enclosure is not bounded away from zero
+TanEncl(x, w) ==
+  LET sc == SinCosFx(x, w)
+  IN IF ZCmp(ZAbs(sc[2].v), ZFromInt(sc[2].e + 2)) <= 0 THEN [none |-> TRUE]
+     ELSE EOf(FxDiv(sc[1], sc[2], w), w)
+\* atan of a fixed-point t in [0, 1] (with its error)
+AtanFx01(t, w) ==
+  LET one == FxInt(1, w)
+      small == ZCmp(ZMulSmall(t.v, 128), ZShl(ZFromInt(53), w)) <= 0
+  IN IF small THEN AtanSmall(t, w)
+     ELSE FxAdd(FxShr(PiFx(w + 2), 4), AtanSmall(FxDiv(FxSub(t, one), FxAdd(t, one), w), w))
+\* atan2(y, x) for dyadics, not both zero, off the cut (y = 0 /\ x < 0 excluded by the caller)
+Atan2Encl(y, x, w) ==
+  LET ax == DyAbs(x)  ay == DyAbs(y)
+      ylex == DyCmp(ay, ax) <= 0
+      big == IF ylex THEN ax ELSE ay     small == IF ylex THEN ay ELSE ax
+      top == DyTop(big)
+      bf == FxOfDy(Dy(big.m, big.e - top), w)                  \* in [1/2, 1)
+      sf == FxOfDy(Dy(small.m, small.e - top), w)              \* <= bf
+      t == IF DyIsZero(small) THEN Fx(ZZero, 0) ELSE FxDiv(sf, bf, w)
+      a0 == AtanFx01(Fx(ZMax2(t.v, ZZero), t.e), w)            \* atan(small / big)
+      hp == FxShr(PiFx(w + 2), 3)                               \* pi / 2
+      a1 == IF ylex THEN a0 ELSE FxSub(hp, a0)                  \* atan(|y| / |x|) in [0, pi/2]
+      a2 == IF DySign(x) >= 0 THEN a1 ELSE FxSub(FxMulInt(hp, 2), a1)
+  IN EOf(IF DySign(y) < 0 THEN FxNeg(a2) ELSE a2, w)
+CoshSinhEncl(y, w) ==
+  LET ep == ExpEncl(y, w)  em == ExpEncl(DyNeg(y), w)
+  IN [ch |-> EHalf(EAdd(ep, em)), sh |-> EHalf(ESub(ep, em))]
+\* complex functions at the dyadic point x + iy: <<enclosure of the real part, enclosure of the imaginary part>>
+CEncl(f, x, y, w) ==
+  CASE f = "exp" -> LET e == ExpEncl(x, w)  sc == SinCosEncl(y, w) IN <<EMul(e, sc.c), EMul(e, sc.s)>>
+    [] f = "cos" -> LET sc == SinCosEncl(x, w)  h == CoshSinhEncl(y, w) IN <<EMul(sc.c, h.ch), ENeg(EMul(sc.s, h.sh))>>
+    [] f = "sin" -> LET sc == SinCosEncl(x, w)  h == CoshSinhEncl(y, w) IN <<EMul(sc.s, h.ch), EMul(sc.c, h.sh)>>
+    [] f = "log" -> <<EHalf(LogEncl(DyAdd(DyMul(x, x), DyMul(y, y)), w)), Atan2Encl(y, x, w)>>
+
 (*************************** judging a result against an enclosure *********)
 \* enc = [lo, hi] * 2^sh contains the true value v.  r is the implementation's result (a finite mpf or zero).
 \* "bad" only if |r - v| > 2^(tol-p) |v| for EVERY v in the enclosure; "ok" if the bound holds for every v;
@@ -189,5 +246,13 @@ EnclRound(r, enc, p, rnd) ==
   IN IF a # b THEN "undecided" ELSE IF r = a THEN "ok" ELSE "bad"
 Encl(f, x, w) ==
   CASE f = "exp" -> ExpEncl(x, w) [] f = "log" -> LogEncl(x, w) [] f = "atan" -> AtanEncl(x, w)
-    [] f = "sin" -> SinCosEncl(x, w).s [] f = "cos" -> SinCosEncl(x, w).c
+    [] f = "sin" -> SinCosEncl(x, w).s [] f = "cos" -> SinCosEncl(x, w).c [] f = "tan" -> TanEncl(x, w)
+\* is the true value (somewhere in enc) a member of the interval v = <<a, b>> (mpf records, infinite ends allowed)?
+\* "bad": certainly not; "ok": certainly; "undecided": the enclosure straddles an endpoint
+EnclMember(v, enc) ==
+  IF "none" \in DOMAIN enc THEN "undecided" ELSE
+  LET lo == Dy(enc.lo, enc.sh)  hi == Dy(enc.hi, enc.sh)
+      Ge(d) == v[1] = FNInf \/ (v[1] # FInf /\ DyCmp(DV(v[1]), d) <= 0)         \* a <= d
+      Le(d) == v[2] = FInf \/ (v[2] # FNInf /\ DyCmp(d, DV(v[2])) <= 0)         \* d <= b
+  IN IF ~Ge(hi) \/ ~Le(lo) THEN "bad" ELSE IF Ge(lo) /\ Le(hi) THEN "ok" ELSE "undecided"
 =============================================================================
